@@ -37,6 +37,8 @@ func classifyBuildErr(msg string) string {
 	first := firstLine(msg)
 	has := func(s string) bool { return strings.Contains(first, s) }
 	switch {
+	case has("is already defined for the directive"):
+		return "paramdup"
 	case has(jerr.DirectiveJSIGHTShouldBeTheFirst):
 		return "jsightfirst"
 	case has(jerr.DirectiveJSIGHTGottaBeOnlyOneTime):
